@@ -172,9 +172,29 @@ func init() {
 			"self-ref-root": `{"type":"object","properties":{"a":{"$ref":"#"}}}`, "ref-cycle-defs": `{"type":"object","properties":{"a":{"$ref":"#/$defs/A"}},"$defs":{"A":{"$ref":"#/$defs/B"},"B":{"$ref":"#/$defs/A"}}}`,
 			"no-root-type": `{"$defs":{"A":{"type":"string"}}}`, "type-list-3": `{"type":["string","integer","null"]}`,
 		}
+		// null where a schema is expected, under every keyword that holds schemas, in both spellings of the definitions
+		// keyword, at the root and one level down, in JSON and as an empty YAML value, in the input and in a file
+		// reached by $ref
+		for _, kw := range []string{"$defs", "definitions", "properties", "patternProperties", "dependentSchemas", "dependencies"} {
+			malformedFiles["null-under-"+kw] = `{"type":"object","` + kw + `":{"thing":null}}`
+			malformedFiles["null-under-"+kw+"-with-both-def-keywords"] = `{"type":"object","$defs":{"ok":{"type":"string"}},"definitions":{"fine":{"type":"string"}},"` + kw + `":{"thing":null}}`
+			malformedFiles["null-under-nested-"+kw] = `{"type":"object","properties":{"p":{"type":"object","` + kw + `":{"thing":null}}}}`
+		}
+		for _, kw := range []string{"items", "additionalProperties", "not", "additionalItems"} {
+			malformedFiles["null-as-"+kw] = `{"type":"object","properties":{"p":{"type":"array","` + kw + `":null}}}`
+		}
+		for _, kw := range []string{"allOf", "anyOf", "oneOf"} {
+			malformedFiles["null-in-"+kw] = `{"type":"object","properties":{"p":{"` + kw + `":[{"type":"object"},null]}}}`
+		}
 		for _, name := range core.SortedKeys(malformedFiles) {
 			cases = append(cases, cliCase{"malformed-file", name, map[string]string{"s.json": malformedFiles[name]}, []string{"-p", "x", "-o", "gen.go", "s.json"}, false, ""},
 				cliCase{"malformed-file", name, map[string]string{"s.json": malformedFiles[name]}, []string{"-p", "x", "s.json"}, false, ""})
+		}
+		for _, kw := range []string{"$defs", "definitions", "properties"} {
+			cases = append(cases,
+				cliCase{"malformed-yaml", "empty-value-under-" + kw, map[string]string{"s.yaml": "type: object\n" + kw + ":\n  thing:\n"}, []string{"-p", "x", "-o", "gen.go", "s.yaml"}, false, ""},
+				cliCase{"malformed-file", "null-under-" + kw + "-in-referenced-file", map[string]string{"s.json": `{"type":"object","properties":{"r":{"$ref":"t.json#/` + kw + `/ok"}}}`, "t.json": `{"type":"object","` + kw + `":{"ok":{"type":"string"},"thing":null}}`},
+					[]string{"-p", "x", "-o", "gen.go", "s.json"}, false, ""})
 		}
 		yamlJunk := map[string]string{"tabs": "type:\tobject\n\t- x", "unclosed": "type: [object", "anchors": "a: &a\n  b: *a\n", "scalar": "just a string", "dup-keys": "type: object\ntype: string\n"}
 		for _, name := range core.SortedKeys(yamlJunk) {
